@@ -1,8 +1,8 @@
 ----------------------------- MODULE MC_NsCache -----------------------------
 EXTENDS NsCache, Json
-\* diamond a -> {b, c} -> d, an undefined supertype u of c
-MCSyms == {"a", "b", "c", "d", "u"}
-MCGraph == [x \in {"a", "b", "c", "d"} |-> CASE x = "a" -> {"b", "c"} [] x = "b" -> {"d"} [] x = "c" -> {"d", "u"} [] OTHER -> {}]
+\* diamond a -> {b, c} -> d, an undefined supertype u of c, and a root r above c only (an ancestor b does not share)
+MCSyms == {"a", "b", "c", "d", "r", "u"}
+MCGraph == [x \in {"a", "b", "c", "d", "r"} |-> CASE x = "a" -> {"b", "c"} [] x = "b" -> {"d"} [] x = "c" -> {"d", "r", "u"} [] OTHER -> {}]
 Q1 == {<<"sup", "a">>, <<"allsup", "a">>, <<"inh", "a">>, <<"inh", "b">>, <<"fits", "a", "d">>, <<"fits", "b", "a">>, <<"inh", "u">>, <<"sup", "d">>,
        <<"fits", "c", "u">>}     \* an undefined base: answered without touching a cache
 Progs1 == {<<q>> : q \in Q1}
